@@ -304,6 +304,13 @@ def chk (pred : String) (m : List (String × String)) : Option Bool :=
     pure (Spec.C05.acceptedClaimantOK vals wl (← parseAcct (← get m "v")))
   | "wlview" => do
     pure (Spec.C05.viewIsStore (← parseNatList (← get m "view") ",") (← parseNatList (← get m "stored") ","))
+  | "statusread" => do
+    let rep ← parseStatus (← get m "reported")
+    pure (Spec.C05.reportedIsStored rep (parseStatus (← get m "stored")))
+  | "finledger" => do
+    let rep ← parseStatus (← get m "reported")
+    let same := (← get m "balb") == (← get m "bala") && (← get m "supb") == (← get m "supa")
+    pure (Spec.C05.finalByLedger rep ((← get m "res") == "ok") (parseStatus (← get m "stored")) same)
   | "finhist" => do
     let first ← parseProphecy (← get m "first")
     let ns ← get m "now"
@@ -433,6 +440,8 @@ def step (st : DState) (toks : List String) : DState × String :=
         ({ st with vals := st.vals.map (fun v => if v.id == i then { v with bonded := true } else v) }, "ok")
       else (st, "noop")
     | none => (st, "bad-op")
+  | ["pegset", l] =>
+    ({ st with s := initGenesisPeggy st.s (listOf l ",") }, "ok")
   | ["stakeend"] =>
     -- the staking EndBlocker applies the validator-set updates: a jailed validator leaves the bonded status (one of
     -- zero power has no "last power" record and is not looked at)
